@@ -22,29 +22,14 @@ pub struct Enumerated {
 }
 
 fn i_e_into_structure(id: u64, class: TagClass, inner: i64) -> structure::StructureTag {
-    let mut count = 0u8;
-    let mut rem: i64 = if inner >= 0 { inner } else { -inner };
-    while {
-        count += 1;
-        rem >>= 8;
-        rem > 0
-    } {}
-
-    // Ensure that the most significant bit is always 0, because BER uses signed numbers.
-    // We shift away all but the most significant bit and check that.
-    // See #21
-    if inner > 0 && inner >> ((8 * count) - 1) == 1 {
-        count += 1;
-    }
-
-    let mut count = count as usize;
-    let mut out: Vec<u8> = Vec::with_capacity(count);
+    // The shortest two's complement representation: drop leading octets as long as
+    // the remaining ones still sign-extend to the same value.
     let repr = inner.to_be_bytes();
-    if count > repr.len() {
-        out.push(0);
+    let mut count = repr.len();
+    while count > 1 && inner >> (8 * (count - 1) - 1) == inner >> 63 {
         count -= 1;
     }
-    out.extend_from_slice(&repr[repr.len() - count..]);
+    let out: Vec<u8> = repr[repr.len() - count..].to_vec();
 
     structure::StructureTag {
         id,
